@@ -526,8 +526,9 @@ class RTDCBase(abc.ABC):
             elif bn._ds is not None:
                 features_local += bn.ds.features_local
 
-        # If they are here, then we use them:
-        features_local += list(self._ancillaries.keys())
+        # If they are here, then we use them (unless a setting they need
+        # has been removed since they were computed):
+        features_local += [ft for ft in self._ancillaries if ft in self]
         features_local += list(self._usertemp.keys())
 
         return sorted(set(features_local))
